@@ -12,7 +12,8 @@ ID = "C06"
 FACTS = ["Layers"]
 COQ_HEADER = "From SPV Require Import CorrDefs.CorrC06."
 COQ_CASE_TYPE = "case"
-RULE = ("nested dataclasses (kw_only, depth <= 3, 1..6 leaves of kind int / str / Optional[int], one or two destinations) x an assignment "
+RULE = ("nested dataclasses (kw_only, depth <= 3, 1..6 leaves of kind int / str / Optional[int], one or two destinations; in about a fifth "
+        "of them a top-level leaf or nested field is NAMED LIKE THE DESTINATION, e.g. Experiment.config with dest='config') x an assignment "
         "of every leaf to a subset of the five layers {definition, default, constructor config files, --config_path files, command "
         "line}, each mention carrying a marker value that encodes (leaf, layer, file index); for schemas with <= 3 leaves every leaf "
         "is taken through all 2^5 subsets (the other leaves random; thorough: the full product on two-leaf schemas), larger schemas are "
@@ -31,6 +32,7 @@ TRUSTED = [
 ]
 ASSUMPTIONS = [
     "field names are unique over the whole forest and at least two characters long (option strings are then --<name>, or the dotted destination path in NESTED mode)",
+    "a top-level field whose name is a prefix of `config_path` (e.g. `config`) is not given on the command line: the temporary --config_path parser would take `--config` as an abbreviation",
     "explicit nulls are written only for Optional[int] leaves",
     "set_defaults is called after add_arguments; a destination section is never a string (that would be read as a path)",
 ]
@@ -116,6 +118,10 @@ def build_case(rng, api, nm, ndest, roots, subsets, nulls_ok=True, probe=None, g
     leaves = forest_leaves(roots)
     idx = {p: i + 1 for i, (p, _) in enumerate(leaves)}
     nulls = []
+    for p, _ in leaves:
+        # `--config` would be taken by the temporary parser as an abbreviation of --config_path: not this property's subject
+        if len(p) == 2 and "config_path".startswith(p[1]):
+            subsets[p].discard("cli")
 
     def val(p, f, code, layer):
         if nulls_ok and f["kind"] == "optint" and rng.random() < 0.22:
@@ -295,13 +301,21 @@ def api_variants():
             ("ap", "WITHOUT_ROOT", 1), ("ap", "WITHOUT_ROOT", 2), ("ap", "DEFAULT", 1)]
 
 
-def make_roots(rng, api, ndest, n_leaves, max_depth):
+def make_roots(rng, api, ndest, n_leaves, max_depth, samename=None):
+    """samename: None | "leaf" | "nested" | "any" - give one top-level field of the first dataclass the NAME OF ITS DESTINATION
+    (e.g. `Experiment.config: ModelConfig` parsed with parse()'s default dest="config")"""
     counter = {"c": 0, "n": 0, "l": 0}
     if ndest == 1:
-        return [{"dest": "config" if api == "parse" else "cfg", "cls": make_schema(rng, n_leaves, max_depth, counter)}]
-    a = max(1, n_leaves // 2)
-    return [{"dest": "cfg", "cls": make_schema(rng, a, max_depth, counter)},
-            {"dest": "oth", "cls": make_schema(rng, max(1, n_leaves - a), max(1, max_depth - 1), counter)}]
+        roots = [{"dest": "config" if api == "parse" else "cfg", "cls": make_schema(rng, n_leaves, max_depth, counter)}]
+    else:
+        a = max(1, n_leaves // 2)
+        roots = [{"dest": "cfg", "cls": make_schema(rng, a, max_depth, counter)},
+                 {"dest": "oth", "cls": make_schema(rng, max(1, n_leaves - a), max(1, max_depth - 1), counter)}]
+    if samename:
+        fields = roots[0]["cls"]["fields"]
+        want = [f for f in fields if ("cls" in f) == (samename == "nested")] if samename != "any" else fields
+        rng.choice(want or fields)["name"] = roots[0]["dest"]
+    return roots
 
 
 def union_cases(rng, n):
@@ -370,7 +384,7 @@ def gen(tier, seed):
                     k += 1
                     if ndest == 2 and n_leaves < 2:
                         ndest = 1
-                    roots = make_roots(rng, api, ndest, n_leaves, max_depth)
+                    roots = make_roots(rng, api, ndest, n_leaves, max_depth, samename="any" if k % 7 == 3 else None)
                     leaves = forest_leaves(roots)
                     subsets = random_subsets(rng, leaves)
                     target = leaves[li % len(leaves)][0]
@@ -391,14 +405,24 @@ def gen(tier, seed):
     for _ in range(500 if quick else 8000):
         api, nm, ndest = rng.choice(apis)
         n_leaves = rng.randint(2, 6)
-        roots = make_roots(rng, api, ndest, n_leaves, rng.randint(1, 3))
+        roots = make_roots(rng, api, ndest, n_leaves, rng.randint(1, 3), samename=rng.choice([None] * 5 + ["leaf", "nested"]))
         leaves = forest_leaves(roots)
         cases.append(build_case(rng, api, nm, ndest, roots, random_subsets(rng, leaves),
                                 gen_mode="NESTED" if (rng.random() < 0.2 and ndest == 1) else "FLAT"))
+    # (2b) a top-level field named like the destination (leaf and nested), every API variant, files mention it
+    for i in range(160 if quick else 2400):
+        api, nm, ndest = apis[i % len(apis)]
+        roots = make_roots(rng, api, ndest, rng.randint(2, 5), rng.randint(2, 3), samename=["nested", "leaf"][i // len(apis) % 2])
+        leaves = forest_leaves(roots)
+        subsets = random_subsets(rng, leaves)
+        for p, _ in leaves:
+            if p[1] == p[0]:
+                subsets[p] |= {rng.choice(["ctor", "clif"])}
+        cases.append(build_case(rng, api, nm, ndest, roots, subsets, gen_mode="NESTED" if (i % 6 == 5 and ndest == 1) else "FLAT"))
     # (3) probes
     for i in range(330 if quick else 5000):
         api, nm, ndest = rng.choice(apis)
-        roots = make_roots(rng, api, ndest, rng.randint(2, 5), rng.randint(2, 3))
+        roots = make_roots(rng, api, ndest, rng.randint(2, 5), rng.randint(2, 3), samename="any" if i % 9 == 4 else None)
         leaves = forest_leaves(roots)
         probe = PROBES[i % len(PROBES)]
         subsets = random_subsets(rng, leaves)
@@ -765,7 +789,7 @@ def features(case, obs):
     if case["kind"] == "union":
         return {"kind": "union", "compatible": compatible(case["a"], case["b"])}
     o = obs["obs"]
-    return {"kind": "parse", "api": f"{case['api']}/{case['nm']}/{len(case['roots'])}", "gen": case["gen"], "via": case["via"],
+    return {"kind": "parse", "field_named_like_dest": any(f["name"] == r["dest"] for r in case["roots"] for f in r["cls"]["fields"]), "api": f"{case['api']}/{case['nm']}/{len(case['roots'])}", "gen": case["gen"], "via": case["via"],
             "nctor": len(case["ctor"]), "nclif": len(case["clif"]) if case["cli_given"] else "-", "probe": case["probe"],
             "leaves": len(forest_leaves(case["roots"])), "depth": max(depth_of(r["cls"]) for r in case["roots"]),
             "nulls": bool(case["nulls"]), "ctor_form": case["ctor_form"], "acp": case["acp"],
